@@ -770,7 +770,10 @@ def prod_prop_inputs(rng, tier):
         for _ in range(5 if tier == "quick" else 40):
             P, S, T = [pts[rng.randrange(len(pts))] for _ in range(3)]
             inputs.append({"curve": name, "kind": "assoc", "P": P, "Q": S, "R": T})
-        scal = [0, 1, 2, n - 1, n, n + 1, -1, 2 ** 256 - 1, 2 ** 256, 3 * n + 7] + [rng.getrandbits(256) for _ in range(nscal)] + \
+        # structured scalars: 3k just below / at / above a power of two (the ladder works on the bits of 3k), alternating bit patterns
+        struct_scal = [(1 << j) // 3 for j in (49, 53, 54, 64, 128, 255, 256)] + [((1 << j) // 3) + 1 for j in (54, 256)] + \
+                      [int("55" * 32, 16), int("aa" * 32, 16), (1 << 255) - 1, pow(3, -1, n)]
+        scal = [0, 1, 2, n - 1, n, n + 1, -1, 2 ** 256 - 1, 2 ** 256, 3 * n + 7] + struct_scal + [rng.getrandbits(256) for _ in range(nscal)] + \
                [rng.getrandbits(rng.choice([8, 64, 128, 255, 300, 520])) for _ in range(nscal)]
         for k in scal:
             for P in ([G, Q] if tier == "quick" else [G, Q, R, Gu, rnd[0]]):
@@ -794,6 +797,17 @@ def prod_prop_inputs(rng, tier):
         for j in range(1 if tier == "quick" else 6):
             inputs.append({"curve": name, "kind": "history", "seed": rng.getrandbits(32),
                            "ks": [5, -1, rng.getrandbits(256), n + 2], "xs": [G[0], 5]})
+        # a second generator H = h*G of the same group, as an instance of the shipped generator's own (accelerated) class:
+        # H*k, k*H, raw_mul and Curve.multiply must all be k*H, in every configuration
+        if name in ("secp256k1", "secp256r1"):
+            for h in ([7] if tier == "quick" else [2, 7, n - 1, rng.getrandbits(255) | 1]):
+                H = ref_mul(p, a, G, h)
+                desc = ["accgen", name, H[0], H[1], rng.getrandbits(200)]
+                for k in [0, 1, 2, n - 1, n, n + 1, -1, rng.getrandbits(256)] + [rng.getrandbits(256) for _ in range(0 if tier == "quick" else 6)]:
+                    inputs.append({"curve": desc, "kind": "gen", "k": k})
+                inputs.append({"curve": desc, "kind": "mul", "P": H, "k": rng.getrandbits(256)})
+                inputs.append({"curve": desc, "kind": "mul", "P": G, "k": rng.getrandbits(256)})
+                inputs.append({"curve": desc, "kind": "add", "P": H, "Q": G})
     return inputs
 
 
